@@ -741,6 +741,15 @@ func normName(s string) string {
 	return strings.ToLower(strings.ReplaceAll(s, "_", ""))
 }
 
+// isConverterName reports whether a function name says "convert X to Y"
+// (ipsToByteSlices, ByteSlicesToIPs, asnToInternal, prefixesToProtobuf).
+func isConverterName(n string) bool {
+	if i := strings.Index(n, "["); i >= 0 {
+		n = n[:i]
+	}
+	return strings.HasPrefix(n, "to") || strings.Contains(n, "To")
+}
+
 // fieldSource returns the struct field (type, name) or getter name from which
 // value v is copied through value-preserving conversions and one-argument
 // conversion calls, or ok=false when v is computed otherwise.
@@ -769,6 +778,17 @@ func fieldSource(v ssa.Value, depth int) (typ, field string, ok bool) {
 		// protobuf getter x.GetFoo()
 		if cal := an.StaticCallee(x); cal != nil && cal.Signature.Recv() != nil && strings.HasPrefix(cal.Name(), "Get") && len(x.Call.Args) == 1 {
 			return an.TypeName(cal.Signature.Recv().Type()), strings.TrimPrefix(cal.Name(), "Get"), true
+		}
+		// a one-argument converter (ipsToByteSlices(x.f), ByteSlicesToIPs(x.f))
+		if cal := an.StaticCallee(x); cal != nil && !x.Call.IsInvoke() && len(x.Call.Args) == 1 && cal.Signature.Recv() == nil && isConverterName(cal.Name()) {
+			return fieldSource(x.Call.Args[0], depth+1)
+		}
+	case *ssa.Extract:
+		// first result of a one-argument converter that can fail
+		if call, ok := x.Tuple.(*ssa.Call); ok && x.Index == 0 {
+			if cal := an.StaticCallee(call); cal != nil && !call.Call.IsInvoke() && len(call.Call.Args) == 1 && cal.Signature.Recv() == nil && isConverterName(cal.Name()) {
+				return fieldSource(call.Call.Args[0], depth+1)
+			}
 		}
 	}
 	return "", "", false
